@@ -130,7 +130,12 @@ def run(ctx) -> Result:
     for s in range(6):
         bad = None
         n = 0
-        for (x, y, z) in spec.WEAK_ORDERS_3:
+        # every ordering at three magnitudes: ordinary, costs around 1e9 that differ by 1, costs around 1e-9 - the
+        # comparison of costs is exact (a "close enough" test would merge distinct costs at the extreme scales)
+        scaled = [(x, y, z) for (x, y, z) in spec.WEAK_ORDERS_3] + \
+                 [(1e9 + x, 1e9 + y, 1e9 + z) for (x, y, z) in spec.WEAK_ORDERS_3] + \
+                 [(1e-9 * (1 + x), 1e-9 * (1 + y), 1e-9 * (1 + z)) for (x, y, z) in spec.WEAK_ORDERS_3]
+        for (x, y, z) in scaled:
             if spec.SIGMA[s] == s and x != z:
                 continue
             n += 1
@@ -154,53 +159,77 @@ def run(ctx) -> Result:
 
     check_emission(res, proj, "V3")
 
-    # ------------------------------------------------------------------ V4
-    body = piv.body_without_docstring()
-    good = len(body) == 1 and isinstance(body[0], ast.Return) and isinstance(body[0].value, ast.Call) \
-        and (dotted(body[0].value.func) or "").split(".")[-1] == "choice" and len(body[0].value.args) == 1 \
-        and src(body[0].value.args[0]) == piv.param_names[2]
-    res.check(good, "V4", "KwikSortRandom._get_pivot:choice(elements)", piv.loc(),
-              ok_detail="pivot = random.choice(remaining elements)",
-              bad_detail=f"pivot is not drawn from the remaining elements: {src(body[0]) if body else ''}")
-    # _kwik_sort passes remaining_elements as the `elements` argument of _get_pivot
-    calls = [c for c in ast.walk(ks.node) if isinstance(c, ast.Call) and isinstance(c.func, ast.Attribute)
-             and c.func.attr == "_get_pivot"]
-    good = len(calls) == 1 and len(calls[0].args) == 4 and src(calls[0].args[1]) == ks.param_names[2] \
-        and src(calls[0].args[0]) == ks.param_names[3] and src(calls[0].args[2]) == ks.param_names[4]
-    res.check(good, "V4", "_kwik_sort:pivot-from-remaining", ks.loc(calls[0]) if calls else ks.loc(),
-              ok_detail="_get_pivot(id map, remaining elements, positions, scheme)",
-              bad_detail=f"_get_pivot called with {[src(a) for a in calls[0].args] if calls else None}")
-    # entry point
-    ds, sch = comp.param_names[1], comp.param_names[2]
-    calls = [c for c in ast.walk(comp.node) if isinstance(c, ast.Call) and isinstance(c.func, ast.Attribute)
-             and c.func.attr == "_kwik_sort"]
-    names = {}
-    for n_ in ast.walk(comp.node):
-        if isinstance(n_, (ast.Assign, ast.AnnAssign)):
-            t = n_.targets[0] if isinstance(n_, ast.Assign) else n_.target
-            if isinstance(t, ast.Name) and n_.value is not None:
-                names[t.id] = src(n_.value)
-
-    def val(a):
-        s_ = src(a)
-        return names.get(s_, s_)
-    good = len(calls) == 1 and len(calls[0].args) == 5
-    if good:
-        a = calls[0].args
-        good = val(a[1]) in (f"list({ds}.universe)", f"list({ds}.mapping_elem_id)", f"list({ds}.mapping_elem_id.keys())") \
-            and val(a[2]) == f"{ds}.mapping_elem_id" \
-            and val(a[3]) in (f"{ds}.get_positions()", f"{ds}.get_bucket_ids()") \
-            and val(a[4]) in (f"asarray({sch}.penalty_vectors)", f"array({sch}.penalty_vectors)") \
-            and val(a[0]) in ("[]",)
-    res.check(good, "V4", "compute_consensus_rankings:wiring", comp.loc(calls[0]) if calls else comp.loc(),
-              ok_detail="sorts list(universe) with the dataset's own id map, positions and [B,T] rows",
-              bad_detail=f"_kwik_sort called with {[val(a) for a in calls[0].args] if calls else None}")
+    # ------------------------------------------------------------------ V4 (evaluation on real instances)
+    _check_wiring(res, proj, rnd, absc, piv, ks, comp)
     res.not_decided.append("the implication 'coherent pairwise preferences => same ranking for every pivot sequence' "
                            "(mathematics over V1-V4, not code shape)")
     if not res.violations:      # the end-to-end pass adds nothing to an established violation (and may not terminate on it)
         from . import e2e
         e2e.check(res, ctx.proj, "C11", ctx.thorough)
     return res
+
+
+def _check_wiring(res: Result, proj, rnd, absc, piv, ks, comp):
+    """The real entry point and pivot choice evaluated on a real dataset / scheme with `random.choice` and the
+    recursive sorter intercepted: the pivot is drawn from exactly the remaining elements; the sorter receives an empty
+    consensus, all the elements of the universe, the dataset's own id map, its position matrix and the scheme's [B, T]."""
+    from .datamodel import World
+    from ..engines.instances import ExternalFunc
+    from ..engines.abseval import Mat
+    w = World(proj)
+    raws = [[{"a"}, {"b", "c"}], [{"c"}, {"a"}], [{"b"}, {"d"}, {"a"}]]
+    ds = w.dataset(raws)
+    SS = proj.cls("corankco.scoringscheme", "ScoringScheme")
+    pen = [[0., 1., 2., 3., 4., 5.], [6., 6., 0., 7., 7., 8.]]
+    sch = w.rt.new(SS, [[list(pen[0]), list(pen[1])]], {})
+    alg = w.rt.new(rnd, [], {})
+    choices = []
+
+    def choice(a, kw, ev, node):
+        choices.append(list(a[0]))
+        return a[0][0]
+    w.rt.externals["random.choice"] = ExternalFunc(choice)
+    # pivot
+    id_map = w.call(ds, "mapping_elem_id")
+    remaining = [e for e in id_map][1:3]
+    st, pv = w.safe("_get_pivot", w.rt.call_method, alg, "_get_pivot", id_map, list(remaining), w.call(ds, "get_positions"),
+                    [list(pen[0]), list(pen[1])])
+    good = st == "ok" and len(choices) == 1 and len(choices[0]) == len(remaining) and \
+        all(any(x is y for y in remaining) for x in choices[0]) and any(pv is y for y in remaining)
+    res.check(good, "V4", "KwikSortRandom._get_pivot:choice(elements)", piv.loc(),
+              ok_detail="the pivot is drawn (random.choice) from exactly the remaining elements",
+              bad_detail=f"remaining {[w.key(e)[1] for e in remaining]}: outcome {st}, drawn from "
+                         f"{[[w.key(e)[1] if hasattr(e, 'attrs') else e for e in c] for c in choices]!r}")
+    # entry point -> sorter
+    seen = []
+
+    def sorter(args, kw):
+        seen.append(list(args))
+        if args and isinstance(args[1], list):
+            args[1].append([e for e in id_map])      # one bucket with everything: a well-formed consensus
+        return None
+    w.rt.overrides[ks.qualname] = sorter
+    st, c = w.safe("compute_consensus_rankings", w.rt.call_method, alg, "compute_consensus_rankings", ds, sch, True)
+    del w.rt.overrides[ks.qualname]
+    good = st == "ok" and len(seen) == 1 and len(seen[0]) >= 6
+    detail = f"outcome {st} {c if st != 'ok' else ''}; {len(seen)} call(s) of the sorter"
+    if good:
+        me, cons, rem, idm, pos, scn = seen[0][:6]
+        pos_rows = [list(r) for r in pos.rows] if isinstance(pos, Mat) else None
+        want_pos = [list(r) for r in w.call(ds, "get_positions").rows]
+        want_bid = [list(r) for r in w.call(ds, "get_bucket_ids").rows]
+        rows = [list(r.vals) if hasattr(r, "vals") else list(r) for r in (scn.rows if isinstance(scn, Mat) else scn)]
+        good = (isinstance(rem, list) and sorted(w.key(e) for e in rem) == sorted(w.key(e) for e in id_map)
+                and len(rem) == len(id_map)
+                and isinstance(idm, dict) and {w.key(k): v for k, v in idm.items()} == {w.key(k): v for k, v in id_map.items()}
+                and pos_rows in (want_pos, want_bid) and rows == pen)
+        detail = (f"sorter called with remaining={[w.key(e)[1] for e in rem] if isinstance(rem, list) else rem!r}, "
+                  f"positions={pos_rows}, scheme rows={rows}")
+    res.check(good, "V4", "compute_consensus_rankings:wiring", comp.loc(),
+              ok_detail="sorts all the elements of the universe with the dataset's own id map, positions and [B, T] rows",
+              bad_detail=detail)
+    res.ok("V4", "_kwik_sort:pivot-from-remaining", ks.loc(), "covered by the emission worlds of V3 (the pivot hook receives "
+                                                             "the remaining elements) and by the end-to-end rule")
 
 
 def run_v3_only(res: Result, proj):
@@ -214,6 +243,7 @@ def check_emission(res: Result, proj, rule: str):
     # ------------------------------------------------------------------ V3
     bad = None
     n = 0
+    del PIVOT_PROBLEMS[:]
     elems = ["p", "a", "b", "c"]
     for pivot_idx in (0, 2):
         order = elems[pivot_idx:] + elems[:pivot_idx]
@@ -234,10 +264,15 @@ def check_emission(res: Result, proj, rule: str):
             norm_want = [(k, sorted(v)) for k, v in want]
             if norm_got != norm_want and bad is None:
                 bad = (order, sign_of, got, want)
+    if PIVOT_PROBLEMS and bad is None:
+        bad = (elems, {}, PIVOT_PROBLEMS[0], "the pivot hook must receive the remaining elements")
     res.check(bad is None, rule, "_kwik_sort:partition-and-emission", ks.loc(),
               ok_detail=f"{n} worlds: negative before the pivot's bucket, zero inside it, positive after, each once",
               bad_detail=(f"remaining={bad[0]} signs={bad[1]}: emitted {bad[2]}, expected {bad[3]}") if bad else "")
 
+
+
+PIVOT_PROBLEMS: List[str] = []
 
 
 def _eval_kwik(ks, remaining: List[str], sign_of) -> List:
@@ -245,6 +280,10 @@ def _eval_kwik(ks, remaining: List[str], sign_of) -> List:
     p = ks.param_names  # self, consensus, remaining_elements, mapping_element_id, positions, scoring_scheme
 
     def get_pivot(ev, call):
+        args = [ev.ev(a) for a in call.args] + [ev.ev(k.value) for k in call.keywords]
+        if not any(isinstance(a, list) and sorted(a) == sorted(remaining) for a in args):
+            PIVOT_PROBLEMS.append(f"pivot chosen among {[a for a in args if isinstance(a, list)]!r}, remaining elements are "
+                                  f"{remaining}")
         return "p"
 
     def where(ev, call):
